@@ -188,4 +188,17 @@ TEXTS = {
         'note': ('Interpreter tensor contents are runtime; float32 reductions compared within rtol 1e-4, not bit-exactly. '
                  'Axioms: Reals axioms for the metric laws only.'),
     },
+    'C06': {
+        'level': ('Theorem, for EVERY kernel semantics K (any function of op code, options and operand values) in which '
+                  'DEQUANTIZE maps a stored constant to its dequantized value, every well-formed subgraph and every constant '
+                  'whose readers are the listed consumers: the graph produced by the performer model\'s DEQUANTIZE insertion '
+                  'computes, on every original tensor, exactly what the ORIGINAL graph computes with the constant replaced by '
+                  'its dequantized value (induction over the op list; abstract statement + instance on insert_common); '
+                  'weight-only / fp16 configs plan exactly that transformation (regenerated decision function). Dynamic '
+                  'range: PARTIAL - meaning preserved under an idealised hybrid-kernel hypothesis; the runtime\'s 8-bit '
+                  'activation quantization is bounded analytically and validated by op-level execution. Tie: I/T/E + a '
+                  'runtime oracle with an own decoder.'),
+        'note': ('Kernel numerics are runtime (validated, not proved). Known finding F20: dynamic-range depthwise conv with '
+                 'per-tensor weights is garbage at runtime. Axioms: none.'),
+    },
 }
